@@ -486,12 +486,12 @@ def rule_cli_exclusive(ctx, rep):
         if isinstance(n, ast.Assign) and isinstance(n.value, ast.Call) and last_attr(n.value.func) == "add_mutually_exclusive_group":
             groups[n.targets[0].id] = n
     found = {}
-    for n in walk_no_nested(pa.node):
-        if isinstance(n, ast.Call) and last_attr(n.func) == "add_argument" and n.args and isinstance(n.args[0], ast.Constant):
-            if n.args[0].value in ("--codemod-include", "--codemod-exclude"):
-                recv = unparse(n.func.value)
-                action = next((unparse(k.value) for k in n.keywords if k.arg == "action"), None)
-                found[n.args[0].value] = (recv, action)
+    from ..cli_model import options as cli_options
+
+    for o in cli_options(ctx):
+        for fl in o.flags:
+            if fl in ("--codemod-include", "--codemod-exclude"):
+                found[fl] = (o.recv, unparse(o.kw["action"]) if "action" in o.kw else None)
     for opt in ("--codemod-include", "--codemod-exclude"):
         recv, action = found.get(opt, (None, None))
         ok = recv in groups and action == "CsvListAction" and len({v[0] for v in found.values()}) == 1
